@@ -77,6 +77,25 @@ def gen_forms():
     sn = function_body(wr, r"BuildWrapperTreeWalker::startNode\s*\([^)]*\)\s*\{", "BuildWrapperTreeWalker::startNode")
     en = function_body(wr, r"BuildWrapperTreeWalker::endNode\s*\([^)]*\)\s*\{", "BuildWrapperTreeWalker::endNode")
     facts["wrap_attrs_in_start"] = ("getAttributes" in sn) and ("m_currentIndex" not in en)
+    # the repair of K05c: the DocumentType wrapper is created (and numbered) but not linked into the child /
+    # sibling chain, and the navigator steps over it when it falls back to the Xerces DOM (FormsDefs.wrap1, XDoctype)
+    sq = re.sub(r"\s+", "", sn)
+    m = need(r"constboolfLinkNode=node->getNodeType\(\)!=DOMNodeType::DOCUMENT_TYPE_NODE;", sq, "startNode: fLinkNode = not a DOCUMENT_TYPE_NODE")
+    for what, rx in (("setFirstChild / setLastChild / sibling links under fLinkNode",
+                      r"if\(fLinkNode==true\)\{.*?setFirstChild\(theWrapperNode\);.*?setLastChild\(theWrapperNode\);.*?setPreviousSibling\(.*?setNextSibling\(theWrapperNode\);\}\}"),
+                     ("sibling stack entry under fLinkNode",
+                      r"m_parentNavigatorStack\.push_back\(theCurrentEntry\);if\(fLinkNode==true\)\{m_siblingNavigatorStack\.push_back\(theCurrentEntry\);\}")):
+        need(rx, sq, "startNode: " + what)
+    if re.search(r"set(First|Last)Child\(theWrapperNode\)", sq[:m.start()]):
+        raise AnchorError("startNode links the wrapper node before the document type test")
+    nav = re.sub(r"\s+", "", strip_comments(read("XercesParserLiaison/XercesWrapperNavigator.cpp")))
+    for fn, call in (("getPreviousSibling", "skipDocumentType(theXercesNode->getPreviousSibling(),false)"),
+                     ("getNextSibling", "skipDocumentType(theXercesNode->getNextSibling(),true)"),
+                     ("getFirstChild", "skipDocumentType(theXercesNode->getFirstChild(),true)"),
+                     ("getLastChild", "skipDocumentType(theXercesNode->getLastChild(),false)")):
+        if "mapNode(" + call + ")" not in nav:
+            raise AnchorError("XercesWrapperNavigator::%s does not step over the document type node" % fn)
+    facts["wrap_links_doctype"] = False
     p_inc = sn.find("++m_currentIndex")
     p_att = sn.find("getAttributes")
     facts["wrap_element_before_attrs"] = 0 <= p_inc < p_att
@@ -99,7 +118,7 @@ def gen_forms():
             "   XercesDocumentWrapper.cpp, XalanOutputStream.hpp - do not edit *)\n"
             "From Coq Require Import NArith.\n")
     for k in ("flush_at_start", "flush_at_end", "flush_at_comment", "flush_at_pi", "flush_at_ignws", "accumulate_text",
-              "element_before_attrs", "nsdecls_first", "wrap_attrs_in_start", "wrap_element_before_attrs"):
+              "element_before_attrs", "nsdecls_first", "wrap_attrs_in_start", "wrap_element_before_attrs", "wrap_links_doctype"):
         text += "Definition %s : bool := %s.\n" % (k, _b(facts[k]))
     for k in ("first_index", "wrap_doc_index", "wrap_first_index", "ostream_bufsize"):
         text += "Definition %s : N := %d%%N.\n" % (k, facts[k])
